@@ -29,7 +29,7 @@ def Line.ok (l : Line) : Bool :=
 
 def Cell.ok (c : Cell) : Bool :=
   c.h.ok (baseTypes "table_cell") && canon c.cornerpoints && canon c.orientation
-  && c.lines.all (fun l => l.ok && l.h.hasParent "table_cell" c.h.id && l.text.isSome)
+  && c.lines.all (fun l => l.ok && l.h.hasParent "table_cell" c.h.id)
 
 /-- the number of column slots the TableRow constructor ends with -/
 def colCellsN : Nat → List Cell → Nat
